@@ -192,6 +192,8 @@ impl Signature {
 
     /// Validates the provided function arguments against the signature.
     pub fn validate(&self, args: &[Rcvar], ctx: &Context<'_>) -> Result<(), JmespathError> {
+        #[cfg(jmespath_rs_verif)]
+        crate::verif_hooks::point("validate");
         self.validate_arity(args.len(), ctx)?;
         if let Some(ref variadic) = self.variadic {
             for (k, v) in args.iter().enumerate() {
